@@ -62,6 +62,27 @@ def prove(assumptions, goal, timeout_ms=DEFAULT_TIMEOUT_MS, seed=0, use_cvc5=Tru
         return Verdict("proved", time.time() - t0, "z3-nlsat", n_instances=len(inst))
     if not portfolio:
         return Verdict("unknown", time.time() - t0, "z3+nlsat", n_instances=len(inst), reason=reason)
+    # the default solver is erratic on nonlinear queries with uninterpreted symbols: the same query
+    # is often decided in a second or two under another seed, so a few short attempts come first
+    # ... and so is the same query in a fresh context (term numbering no longer depends on what
+    # this process did before), which also makes the verdict reproducible
+    try:
+        ctx = z3.Context()
+        s2 = z3.Solver(ctx=ctx)
+        s2.set("timeout", min(timeout_ms, 8000))
+        for f in list(fs) + list(inst):
+            s2.add(f.translate(ctx))
+        r = s2.check()
+        if r == z3.unsat:
+            return Verdict("proved", time.time() - t0, "z3(fresh-context)", n_instances=len(inst))
+    except z3.Z3Exception:
+        pass
+    for sd in (seed + 1, seed + 2):
+        r, s = default(min(timeout_ms, 4000), sd)
+        if r == z3.unsat:
+            return Verdict("proved", time.time() - t0, f"z3(seed+{sd - seed})", n_instances=len(inst))
+        if r == z3.sat:
+            return Verdict("failed", time.time() - t0, f"z3(seed+{sd - seed})", model=s.model(), n_instances=len(inst))
     r, s = default(min(timeout_ms, 10000), seed)
     if r == z3.unsat:
         return Verdict("proved", time.time() - t0, "z3", n_instances=len(inst))
